@@ -286,7 +286,7 @@ func cmdCheck(args []string) int {
 			file := filepath.Join(wd, fmt.Sprintf("q%04d.smt2", i))
 			var mt []string
 			if r.G != nil {
-				for _, mv := range r.G.modelVars {
+				for _, mv := range r.G.replayTerms() {
 					mt = append(mt, mv.Term)
 				}
 			}
